@@ -272,5 +272,5 @@ UNIT = Unit('U-ARGS', TEMPLATE, fns=[one, in_tokens, expand_args, try_run_func, 
 TRUSTED = common.TRUSTED_STR + common.TRUSTED_TOKEN + [
     'the positional-reference regex is uninterpreted; assumed (validated by axcheck on every run): it is anchored (at most one match) and its group 3 is a proper suffix of the text',
     'str::parse::<usize>, slice join: std contracts; scripting::run_lines (pest-driven interpreter) is external: it reports the statuses of the commands it ran in order',
-    'function extraction from the script text (regex over lines), set -e, source persistence and run_script are not under contract (pest / file I/O)',
+    'function extraction from the script text, the set -e stop rule and run_script are under contract in U-SCRIPT (from the text of the file on); here they are external; source persistence rests on the type (U-BSH)',
 ]
